@@ -84,6 +84,8 @@ Context {C : Type} (SC : Scalar C C) (gam : C -> C) (OF : OrdField SC).
 Notation zero := (s_zero SC).
 Notation dentry := (dentry SC).
 
+Add Field TFfield : (of_field SC OF).
+
 Lemma csum_is_fsum l : csum SC l = fsum_from SC zero l.
 Proof. unfold csum, fsum_from. rewrite (f_neg_0 SC OF). reflexivity. Qed.
 
@@ -248,6 +250,37 @@ Proof.
     rewrite <- (edges_of_pop E g e He). rewrite Hlen.
     rewrite <- (IH (pop_edge g e)) by lia.
     rewrite (f_div_def SC OF). apply (f_mul_comm SC OF).
+Qed.
+
+(* C01 (T5): the probability of a whole removal order telescopes *)
+Fixpoint valid_order (g : sid) (s : list nat) : Prop :=
+  match s with
+  | [] => g = 0%N
+  | e :: s' => has_edge g e = true /\ valid_order (pop_edge g e) s'
+  end.
+
+Fixpoint prob_chain (g : sid) (s : list nat) : C :=
+  match s with
+  | [] => s_one SC
+  | e :: s' => s_mul SC (s_div SC (s_div SC (J (pop_edge g e)) (J g)) (om (pop_edge g e)))
+                        (prob_chain (pop_edge g e) s')
+  end.
+
+Lemma order_probability g s : (g < 2 ^ N.of_nat E)%N -> valid_order g s ->
+  prob_chain g s = s_div SC (chain_prod g s) (J g).
+Proof.
+  revert g; induction s as [|e s IH]; intros g Hlt Hv; cbn [valid_order prob_chain chain_prod] in *.
+  - subst g. destruct (table_J_recursion SC gam tg D t Hb) as [H0 _]. unfold J. rewrite H0.
+    symmetry. apply (f_div_1 SC OF).
+  - destruct Hv as [He Hv]. pose proof (pop_edge_lt g e He) as Hp.
+    rewrite (IH (pop_edge g e)) by (try lia; exact Hv).
+    assert (HJg : J g <> zero) by (apply not_eq_sym, (f_lt_neq SC OF), J_pos, Hlt).
+    assert (HJh : J (pop_edge g e) <> zero) by (apply not_eq_sym, (f_lt_neq SC OF), J_pos; lia).
+    assert (Ho : om (pop_edge g e) <> zero) by (apply not_eq_sym, (f_lt_neq SC OF), om_pos_sub; assumption).
+    pose proof (of_field SC OF) as Fth.
+    rewrite !(f_div_def SC OF).
+    (* (Jh * /Jg * /oh) * (cp * /Jh) = (/oh * cp) * /Jg *)
+    field. repeat split; assumption.
 Qed.
 
 End WithTable.
